@@ -454,7 +454,9 @@ pub fn source_is_undefined(prog: &Program, img: &Image, init: &Init, signed_char
 /// spellings that are equivalent in C may legitimately be compiled differently
 pub fn outside_agreement_domain(prog: &Program, img: &Image, init: &Init, signed_chars: bool, ex: &Excl) -> bool {
     match refc::run_all_ex(prog, &img.layout, init, REFC_STEPS, &refc::READINGS, signed_chars, ex.has("signed_rel_overflow")) {
-        Verdict::Agreed(_) | Verdict::Timeout => false,
+        Verdict::Agreed(_) => false,
+        // a run that the reference interpreter cannot finish within its step budget is not known to be
+        // inside the domain (it may be ambiguous or undefined further on): it is not compared
         _ => true,
     }
 }
